@@ -625,6 +625,16 @@ func c10R5(c *Ctx) {
 				}
 			}
 			if key != "first" && key != "next" {
+				// table-driven: the key is a field of the entry that a package-level table
+				// holds for the kind; then the table must say first for the two root kinds
+				// and next for the two page kinds, and for nothing else
+				if ok, why := followingKeyByTable(unwrapLoad(st.Val), isKindRead); ok {
+					c.ok(fname+"/following-page:table", pos, fname, "the key of the following page is looked up by kind in a table that says first for collections and next for pages")
+					return
+				} else if why != "" {
+					c.bad(fname+"/following-page", pos, fname, "the table that gives the key of the following page by kind is wrong: "+why)
+					return
+				}
 				c.bad(fname+"/following-page", pos, fname, "the continuation link is not read from the document's \"first\" or \"next\" key")
 				return
 			}
@@ -726,4 +736,133 @@ func isSumOfCells(v ssa.Value, a, b *ssa.Alloc) bool {
 	want := fa.add(fb, 1)
 	got := lin(v)
 	return got.String() == want.String()
+}
+
+// followingKeyByTable: v is result #0 of an accessor call whose key argument
+// is field F of the entry found for the collection's kind in a package-level
+// map literal; the literal maps Collection / OrderedCollection to an entry
+// with F = "first", the two page kinds to F = "next", and has no other keys.
+func followingKeyByTable(v ssa.Value, isKindRead func(ssa.Value) bool) (bool, string) {
+	ex, ok := v.(*ssa.Extract)
+	if !ok {
+		return false, ""
+	}
+	call, ok := ex.Tuple.(*ssa.Call)
+	if !ok || len(call.Call.Args) < 2 {
+		return false, ""
+	}
+	keyArg := call.Call.Args[len(call.Call.Args)-1]
+	// layout.nextKey: a Field of the looked-up struct, or a load of a FieldAddr of a local copy of it
+	var fld *types.Var
+	var entry ssa.Value
+	switch x := keyArg.(type) {
+	case *ssa.Field:
+		fld, entry = fieldVarOfField(x), x.X
+	case *ssa.UnOp:
+		if fa, ok := x.X.(*ssa.FieldAddr); ok && x.Op == token.MUL {
+			fld = fieldOf(fa)
+			if al, ok := fa.X.(*ssa.Alloc); ok {
+				if sts := storesToAlloc(al); len(sts) == 1 {
+					entry = sts[0].Val
+				}
+			}
+		}
+	}
+	if fld == nil || entry == nil {
+		return false, ""
+	}
+	if e2, ok := entry.(*ssa.Extract); ok && e2.Index == 0 {
+		entry = e2.Tuple
+	}
+	lk, ok := entry.(*ssa.Lookup)
+	if !ok || !isKindRead(lk.Index) {
+		return false, ""
+	}
+	ld, ok := lk.X.(*ssa.UnOp)
+	if !ok || ld.Op != token.MUL {
+		return false, ""
+	}
+	g, ok := ld.X.(*ssa.Global)
+	if !ok || g.Pkg == nil {
+		return false, ""
+	}
+	// the literal
+	got := map[string]string{}
+	var mk *ssa.MakeMap
+	bad := ""
+	for _, m := range g.Pkg.Members {
+		f, ok := m.(*ssa.Function)
+		if !ok {
+			continue
+		}
+		for _, ff := range append([]*ssa.Function{f}, f.AnonFuncs...) {
+			eachInstr(ff, func(_ *ssa.BasicBlock, _ int, in ssa.Instruction) {
+				switch x := in.(type) {
+				case *ssa.Store:
+					if x.Addr == ssa.Value(g) {
+						if m2, ok := x.Val.(*ssa.MakeMap); ok && mk == nil && ff.Name() == "init" {
+							mk = m2
+						} else {
+							bad = "the table is assigned more than once"
+						}
+					}
+				case *ssa.MapUpdate:
+					if l2, ok := x.Map.(*ssa.UnOp); ok && l2.Op == token.MUL && l2.X == ssa.Value(g) {
+						bad = "the table is updated after it was made"
+					}
+				}
+			})
+		}
+	}
+	if mk == nil || bad != "" {
+		if bad == "" {
+			bad = "the table is not a map literal"
+		}
+		return false, bad
+	}
+	for _, r := range refs(mk) {
+		mu, ok := r.(*ssa.MapUpdate)
+		if !ok {
+			continue
+		}
+		k, isC := constString(mu.Key)
+		if !isC {
+			return false, "a key of the table is not a constant"
+		}
+		val := ""
+		if l3, ok := mu.Value.(*ssa.UnOp); ok && l3.Op == token.MUL {
+			if al, ok := l3.X.(*ssa.Alloc); ok {
+				for _, rr := range refs(al) {
+					if fa, ok := rr.(*ssa.FieldAddr); ok && fieldOf(fa) == fld {
+						for _, r3 := range refs(fa) {
+							if st, ok := r3.(*ssa.Store); ok && st.Addr == ssa.Value(fa) {
+								val, _ = constString(st.Val)
+							}
+						}
+					}
+				}
+			}
+		}
+		got[k] = val
+	}
+	want := map[string]string{"Collection": "first", "OrderedCollection": "first", "CollectionPage": "next", "OrderedCollectionPage": "next"}
+	for k, w := range want {
+		if got[k] != w {
+			return false, fmt.Sprintf("kind %s reads its following page from %q, expected %q", k, got[k], w)
+		}
+	}
+	for k := range got {
+		if _, ok := want[k]; !ok {
+			return false, "the table has an entry for " + k + ", which is not a kind of collection"
+		}
+	}
+	return true, ""
+}
+
+func fieldVarOfField(f *ssa.Field) *types.Var {
+	st, ok := f.X.Type().Underlying().(*types.Struct)
+	if !ok || f.Field >= st.NumFields() {
+		return nil
+	}
+	return st.Field(f.Field)
 }
